@@ -118,7 +118,7 @@ def run(chk, args):
     chk.sample({"case": sel[0], "observed": obs[sel[0]["idx"]]})
     chk.sample({"case": sel[len(sel) // 2], "observed": obs[sel[len(sel) // 2]["idx"]]})
     # sequences mixing valid traffic are the broker replays: legacy / AMP / POST clients in TLC behaviours
-    counts = {"Gen_small": 60, "Gen_core": 120} if chk.tier == "quick" else {"Gen_small": 300, "Gen_core": 1200, "Gen_big": 800}
+    counts = {"Gen_small": 60, "Gen_core": 120, "Gen_repoll": 80} if chk.tier == "quick" else {"Gen_small": 300, "Gen_core": 1200, "Gen_big": 800, "Gen_repoll": 600}
     scen = brokerlib.generate_replays(chk, counts, chk.seed + 1000)
     # twin runs: the same gated behaviour with every client poll sent as a versioned POST
     twins = []
@@ -129,14 +129,30 @@ def run(chk, args):
         t["id"] = s_["id"] + 100000
         t["via"] = {c: "post" for c in s_["via"]}
         twins.append(t)
-    by_sc, _ = brokerlib.run_rig(chk, scen + twins)
+    herds = brokerlib.generate_herds(60 if chk.tier == "quick" else 400, chk.seed + 1014, 200000, debug_storm=True)
+    by_sc, _ = brokerlib.run_rig(chk, scen + twins + herds)
+    for h in herds:   # herds (with /debug polls inside the waves): only completion and survival are judged here
+        evs = by_sc.pop(h["id"], [])
+        end = [e for e in evs if e["ev"] == "end"]
+        if end and end[0]["pending"]:
+            chk.violation("C14/no-response-in-herd:" + brokerlib.hang_signature(evs, end[0]["pending"]),
+                          "requests %s got no response" % end[0]["pending"], {"scenario": h, "events": evs})
+    if brokerlib.CRASHES:
+        msg, tail, inp = brokerlib.CRASHES[0]
+        import re as _re
+        chk.violation("C14/crash:" + _re.sub(r"0x[0-9a-f]+|\d+", "", msg).strip()[:80],
+                      "the broker process died while serving a request sequence: %s" % msg, {"output": tail})
     ok = {}
     for sid, evs in by_sc.items():
         end = [e for e in evs if e["ev"] == "end"]
         bad = [e for e in evs if e["ev"].endswith(".resp") and e.get("kind") == "panic"]
         if bad:
             chk.violation("C14/panic-in-sequence", "handler panicked during a replayed exchange: %s" % bad[0], {"scenario": [s for s in scen + twins if s["id"] == sid][0], "events": evs})
-        if end and not end[0]["pending"] and sid < 100000:
+        sc_ = [s for s in scen + twins if s["id"] == sid][0]
+        if end and end[0]["pending"]:
+            chk.violation("C14/no-response-in-sequence:" + brokerlib.hang_signature(evs, end[0]["pending"]) + ("/repolled-sid" if sc_.get("novalidate") else ""),
+                          "requests %s got no response (fake clock advanced 25 s past the last step)" % end[0]["pending"], {"scenario": sc_, "events": evs})
+        if end and not end[0]["pending"] and sid < 100000 and not sc_.get("novalidate"):
             ok[sid] = evs
 
     def responses(evs):
